@@ -2,7 +2,8 @@
 // Fault enumeration: for every generated RTMP session (incl. handshake) and FLV
 // file, every cut offset 0..len and an injected transport error at every read
 // call and every write call index (with 0, some or all bytes transferred alongside,
-// persistent or one-shot: see faultwrite.go);
+// persistent or one-shot: see faultwrite.go; what later calls send after a one-shot
+// write fault: see carryon.go);
 // plus every nesting of the errors package's constructors up to depth 5.
 package main
 
@@ -767,8 +768,9 @@ func errorsNestings(c *hl.Ctx, depth int) {
 }
 
 func run(c *hl.Ctx) {
-	c.Rule("fault enumeration: RTMP sessions = all item sequences <= d over {1/129/257/9000-byte video, 130-byte command with extended timestamp, user-control packet, Set Chunk Size 4096}; for each: every cut offset 0..len x {whole, 1-byte} reads, an injected error at every transport read call index x {0,3} bytes alongside, the same through ExpectMessage/ExpectPacket at item boundaries, an injected error at every transport write call index x {persistent: later calls fail too, one-shot: later calls are accepted again} x accepted byte counts {0,1,2,half,len-2,len-1,len} of that call returned together with the error (thorough: every count for writes <= 16 bytes, extra interior counts for larger ones); all six handshake methods under cuts and injected errors, the three handshake writers under the same write-fault family; FLV files = all tag sequences <= d over 5 tags (sizes 0,1,255,256,40; timestamps around 2^24 and 2^32-1) under the same faults, plus one-shot read faults that deliver 0..3 bytes together with the error (success of the operation in progress is legitimate only when those bytes complete what it needed); errors package = every nesting of {WithStack, Wrap, Wrapf, WithMessage} up to depth 5 over 6 roots. Oracle: items returned before the failure are exactly the completely transferred ones and equal to what was written; non-nil error whose errors.Cause is the transport's error (identity) or io.EOF/io.ErrUnexpectedEOF for a cut; the operation during which a transport Write call returned an error returns a non-nil error with that cause whatever the accepted count and whether or not later calls succeed, and no earlier operation fails; wire after a write failure is a prefix of the fault-free stream. Non-trivial = distinct (session, fault) case that satisfied every clause."+histRule+bhRule)
-	c.Assume("an io.Writer that returns short without an error is a contract breach and not in the alphabet", "a failing Write call may report any accepted count 0..len(p) together with its error (io.Writer contract), and the fault may be transient: the operation in progress must still report it", "after the operation that reported a write failure nothing further is judged (later operations on a one-shot-faulted transport are outside the statement)", "a cut inside the 4-byte PreviousTagSize after a complete FLV tag body is not judged either way", "item boundaries are the wire lengths observed after each fault-free write")
+	c.Rule("fault enumeration: RTMP sessions = all item sequences <= d over {1/129/257/9000-byte video, 130-byte command with extended timestamp, user-control packet, Set Chunk Size 4096}; for each: every cut offset 0..len x {whole, 1-byte} reads, an injected error at every transport read call index x {0,3} bytes alongside, the same through ExpectMessage/ExpectPacket at item boundaries, an injected error at every transport write call index x {persistent: later calls fail too, one-shot: later calls are accepted again} x accepted byte counts {0,1,2,half,len-2,len-1,len} of that call returned together with the error (thorough: every count for writes <= 16 bytes, extra interior counts for larger ones); all six handshake methods under cuts and injected errors, the three handshake writers under the same write-fault family; FLV files = all tag sequences <= d over 5 tags (sizes 0,1,255,256,40; timestamps around 2^24 and 2^32-1) under the same faults, plus one-shot read faults that deliver 0..3 bytes together with the error (success of the operation in progress is legitimate only when those bytes complete what it needed); errors package = every nesting of {WithStack, Wrap, Wrapf, WithMessage} up to depth 5 over 6 roots. Oracle: items returned before the failure are exactly the completely transferred ones and equal to what was written; non-nil error whose errors.Cause is the transport's error (identity) or io.EOF/io.ErrUnexpectedEOF for a cut; the operation during which a transport Write call returned an error returns a non-nil error with that cause whatever the accepted count and whether or not later calls succeed, and no earlier operation fails; wire after a write failure is a prefix of the fault-free stream. Non-trivial = distinct (session, fault) case that satisfied every clause."+carryRule+histRule+bhRule)
+	c.Assume("an io.Writer that returns short without an error is a contract breach and not in the alphabet", "a failing Write call may report any accepted count 0..len(p) together with its error (io.Writer contract), and the fault may be transient: the operation in progress must still report it", "in the straight-line write-fault family nothing is judged after the operation that reported the write failure; what later operations put on a transport that works again is judged by the carry-on family", "a cut inside the 4-byte PreviousTagSize after a complete FLV tag body is not judged either way", "item boundaries are the wire lengths observed after each fault-free write")
+	c.Assume(carryAssume...)
 	c.Assume(histAssume...)
 	c.Assume(bhAssume...)
 	idx := 0
@@ -787,6 +789,10 @@ func run(c *hl.Ctx) {
 		return
 	}
 	flvFaults(c, d, &idx)
+	if c.Expired() {
+		return
+	}
+	carryFaults(c, d, &idx)
 	if c.Expired() {
 		return
 	}
@@ -819,6 +825,10 @@ func replay(c *hl.Ctx, raw json.RawMessage) {
 		var cs flvCase
 		json.Unmarshal(raw, &cs)
 		flvWrite(c, buildFLV(cs.Tags), cs.At, cs.Part2, cs.OneShot)
+	case "flv-carry", "rtmp-carry":
+		var cs carryCase
+		json.Unmarshal(raw, &cs)
+		carryReplay(c, cs)
 	case "rtmp-hist":
 		var cs histCase
 		json.Unmarshal(raw, &cs)
